@@ -1,3 +1,19 @@
-def g():
-    yield 1
-print(list(g()))
+x = 1
+timeout = 30
+class A:
+    y = x
+    x = 2
+    timeout = timeout
+    x += 5
+    print = print
+    print(x, y, timeout)
+print(A.x, A.y, A.timeout, x)
+def f():
+    x = 'local'
+    class B:
+        z = x
+    class C:
+        w = x
+        x = 'c'
+    return B.z, C.w, C.x
+print(f())
